@@ -631,3 +631,37 @@ func flush(code int) {
 		_ = hf.Close()
 	}
 }
+
+
+// FuzzSeeds gives a native fuzz target that is driven through rapid.MakeFuzz a
+// starting corpus: byte strings long enough for a few hundred draws (rapid
+// reads 8 bytes per draw and gives up on a case when they run out). The bytes
+// come from a fixed generator, so every campaign starts from the same corpus.
+func FuzzSeeds(f *testing.F, n, size int) {
+	x := uint64(0x9E3779B97F4A7C15)
+	for i := 0; i < n; i++ {
+		b := make([]byte, size)
+		for j := range b {
+			x ^= x << 13
+			x ^= x >> 7
+			x ^= x << 17
+			b[j] = byte(x >> 24)
+		}
+		f.Add(b)
+	}
+}
+
+// FuzzRun judges one case inside a native fuzz target: no bookkeeping, a
+// violation (other than a listed known finding) fails the target with the case
+// as JSON behind the word the driver looks for.
+func FuzzRun(t tbLike, c interface{}, check func() Outcome) {
+	out := Protect(check)
+	if out.Violation == "" {
+		return
+	}
+	if _, ok := knownSigs[out.Sig]; ok && out.Sig != "" {
+		return
+	}
+	raw, _ := json.Marshal(c)
+	t.Fatalf("VIOLATION-CASE %s\n%s", raw, out.Violation)
+}
